@@ -80,6 +80,7 @@ type Record struct {
 	ResultDigest uint64         `json:"result_digest"`
 	Faults       map[string]int `json:"faults,omitempty"`
 	Noisy        int            `json:"noisy,omitempty"`
+	Masked       int            `json:"masked,omitempty"` // ops compared with address-like numbers masked
 	ExpPanics    int            `json:"exp_panics,omitempty"`
 	TooSlow      int            `json:"too_slow,omitempty"`
 	Missing      int            `json:"missing,omitempty"`
@@ -344,6 +345,9 @@ func PlanRun(seed, index uint64, tierName string) *Plan {
 			}
 			if reps > 10*t.Reps {
 				reps = 10 * t.Reps
+			}
+			if cost <= 25 && r.Chance(8) {
+				reps = 500 // a long-lived caller: counters, fixed-size tables and pools that only matter after hundreds of calls
 			}
 		} else if Cat.Cost != nil {
 			reps = 4 * t.Reps
@@ -649,17 +653,54 @@ func ExecRun(p *Plan) *Record {
 // in the library (see vsimrt.Config.Free).
 var FreeMode bool
 
+// maskAddrs replaces what looks like a heap address (0xc000... or the same number
+// printed in decimal: 12 or more digits starting with 824 = 0xc0 << 32) by a token.
+func maskAddrs(s string) string {
+	if !strings.Contains(s, "0xc0") && !strings.Contains(s, "824") {
+		return s
+	}
+	var b strings.Builder
+	for i := 0; i < len(s); {
+		if strings.HasPrefix(s[i:], "0xc0") {
+			j := i + 4
+			for j < len(s) && ((s[j] >= '0' && s[j] <= '9') || (s[j] >= 'a' && s[j] <= 'f')) {
+				j++
+			}
+			if j-i >= 10 {
+				b.WriteString("<addr>")
+				i = j
+				continue
+			}
+		}
+		if strings.HasPrefix(s[i:], "824") && (i == 0 || s[i-1] < '0' || s[i-1] > '9') {
+			j := i
+			for j < len(s) && s[j] >= '0' && s[j] <= '9' {
+				j++
+			}
+			if j-i == 12 {
+				b.WriteString("<addr>")
+				i = j
+				continue
+			}
+		}
+		b.WriteByte(s[i])
+		i++
+	}
+	return b.String()
+}
+
 // simCap: yield budget of one operation under simulation (see runInst).
 var simCap int64 = simOpYieldCap
 
 type execution struct {
-	p     *Plan
-	rec   *Record
-	slow  map[[2]int]bool
-	noisy map[[2]int]bool
-	b1    [][]outcome
-	insts [][]*Inst
-	stats vsimrt.Stats
+	p      *Plan
+	rec    *Record
+	slow   map[[2]int]bool
+	noisy  map[[2]int]bool
+	masked map[[2]int]bool // outcome differs between identical sequential runs only in address-like numbers: compared with those masked
+	b1     [][]outcome
+	insts  [][]*Inst
+	stats  vsimrt.Stats
 }
 
 // baselines: order 1 twice (instability = noise, excluded), reverse order once
@@ -685,6 +726,15 @@ func (x *execution) baselines() {
 	for t := range b1 {
 		for o := range b1[t] {
 			if b1[t][o].dump != b2[t][o].dump {
+				if maskAddrs(b1[t][o].dump) == maskAddrs(b2[t][o].dump) {
+					// e.g. an error text that prints a pointer: everything else is still compared
+					if x.masked == nil {
+						x.masked = map[[2]int]bool{}
+					}
+					x.masked[[2]int{t, o}] = true
+					rec.Masked++
+					continue
+				}
 				x.noisy[[2]int{t, o}] = true
 				rec.NoisyOps = append(rec.NoisyOps, p.Tasks[t][o].String())
 				if rec.NoisyDiff == "" {
@@ -708,7 +758,11 @@ func (x *execution) baselines() {
 				if x.noisy[k] {
 					continue
 				}
-				if b1[t][o].dump != b3[t][o].dump {
+				d1, d3 := b1[t][o].dump, b3[t][o].dump
+				if x.masked[k] {
+					d1, d3 = maskAddrs(d1), maskAddrs(d3)
+				}
+				if d1 != d3 {
 					spec := p.Tasks[t][o]
 					rec.Violations = append(rec.Violations, Violation{
 						Class: "order-dependence", Key: "order-dependence:" + spec.Fam + "/" + spec.Name,
@@ -724,7 +778,7 @@ func (x *execution) baselines() {
 	for t := range b1 {
 		rec.BaseDigests[t] = make([]uint64, len(b1[t]))
 		for o := range b1[t] {
-			if !x.noisy[[2]int{t, o}] && !x.slow[[2]int{t, o}] {
+			if !x.noisy[[2]int{t, o}] && !x.slow[[2]int{t, o}] && !x.masked[[2]int{t, o}] {
 				rec.BaseDigests[t][o] = Hash64(b1[t][o].dump) | 1
 			}
 		}
@@ -915,7 +969,7 @@ func (x *execution) compare() {
 			if oc.yields != exp.yields {
 				rec.YieldDiffs++
 			}
-			if oc.dump == exp.dump {
+			if oc.dump == exp.dump || (x.masked[k] && maskAddrs(oc.dump) == maskAddrs(exp.dump)) {
 				continue
 			}
 			class := "diverge"
